@@ -4,6 +4,7 @@ import DswModel.Model.Graphized
 import DswModel.Model.Spiderweb
 import DswModel.Model.Biofilter
 import DswModel.Model.Capacity
+import DswModel.Model.Shuffle
 import DswModel.Py.Wire
 import DswModel.Gen.Operation
 import DswModel.Gen.Spiderweb
@@ -219,6 +220,9 @@ def step (line : String) : String :=
     | some (res, recs) =>
       "ok " ++ ",".intercalate (res.map showScaled) ++ " " ++
         ";".intercalate (recs.map fun r => ",".intercalate (r.map showScaled))
+  | ["shuf", k, seed] =>
+    showR (fun t => String.join (t.map fun r => String.join (r.map toString)))
+      (createRandomShufflesSeeded (parseNatD k) (parseNatD seed))
   | _ => "bad-op"
 
 partial def loop (h : IO.FS.Stream) (out : IO.FS.Stream) : IO Unit := do
